@@ -94,6 +94,7 @@ def holds : PC → Bool
   | .jwk r _ => retHolds r
   | .gc0 r => retHolds r
   | .gc1 r => retHolds r
+  | .panicked h => h
   | _ => false
 
 theorem holds_retPc (r : Ret) : holds (retPc r) = retHolds r := by cases r <;> rfl
